@@ -123,6 +123,11 @@ def check_case(ctx, case):
         ctx.violation("table_count", case, {"observed": len(ents), "expected": 1}, kf=classify(case, "table_count", []))
         return False
     errs = S.compare_table(ents[0], exp)
+    if case.get("feature") == "double_pk":
+        # two PRIMARY KEY declarations in one table: which of them the table-level primary_key list shows is not
+        # decided by the property; the *named* constraint's own column list, flags and everything else are
+        errs = [e for e in errs if e[0] != "primary_key"]
+        ctx.obs["double_pk_cases"] += 1
     if errs:
         first = errs[0][0]
         what = first.split(" ")[0] + ("." + first.split(".")[-1] if first.startswith("column ") else "")
@@ -192,6 +197,23 @@ def exhaustive_cases(ctx):
                     yield make_case(t, rng.choice([None, "multiline"]), rng, "exhaustive")
 
 
+def double_pk_cases(ctx, n):
+    """an inline PRIMARY KEY column plus a (named) table-level PRIMARY KEY over other columns"""
+    rng = ctx.rng
+    for i in range(n):
+        ncols = rng.randint(3, 6)
+        cols = base_cols(ncols)
+        inline = rng.randrange(ncols)
+        cols[inline]["opts"] = [{"k": "pk"}]
+        others = [c["name"] for j, c in enumerate(cols) if j != inline]
+        cs = rng.sample(others, rng.randint(1, min(3, len(others))))
+        cl = {"kind": "pk", "cols": cs, "name": rng.choice(["pk_named", "PK_T", None])}
+        items = [("col", c) for c in cols]
+        items.insert(rng.randint(1, len(items)), ("clause", cl))
+        t = restyle({"schema": None, "name": "t", "prefix": "plain", "items": items}, rng.choice(list(STYLES)))
+        yield make_case(t, rng.choice([None, "multiline"]), rng, "double_pk", "double_pk", [])
+
+
 def kf_cases(ctx, n):
     rng = ctx.rng
     for i in range(n):
@@ -237,6 +259,8 @@ def run_shard(ctx):
         ctx.obs["random_cases"] += 1
         if i == 0:
             ctx.sample({"ddl": case["ddl"], "expected": case["expected"]})
+    for case in double_pk_cases(ctx, ctx.budget(160, 3000)):
+        check_case(ctx, case)
     for case in kf_cases(ctx, ctx.budget(60, 600)):
         check_case(ctx, case)
         ctx.obs["known_finding_class_cases"] += 1
